@@ -85,7 +85,7 @@ def run_one(args):
         res["atoms"] = len(S.A.names)
         # native replay of refuted obligations against the real code
         for o in env.obls:
-            if want_props and o.prop not in want_props:
+            if want_props and not (set(o.prop.split(",")) & set(want_props)):
                 continue
             for r in o.refuted[:2]:
                 if r.get("entry", 0) is None and "reason" in r and "witness" not in r:
